@@ -5,6 +5,8 @@ PROP = dict(
                  env=dict(quick=dict(VERIF_CASES=250), thorough=dict(VERIF_CASES=4000))),
             # scripted regression corpus: the witness of the repaired finding C08-F1
             dict(name="lend-witness", go_test="TestC08Witness", runner="C08"),
+            # scripted witness of the known finding C08-F2 (hand-over deletes a live lend record)
+            dict(name="lend-handover-witness", go_test="TestC08Handover", runner="C08"),
         ],
         rule="case = one history of 20-50 messages (lend / deposit / withdraw / close-lend / borrow / borrow-alternate / deposit-borrow / draw / "
              "repay / close-borrow / calculate-interest-and-rewards) by 3 users over 2 pools x 3 assets with 12 same-pool and 5 cross-pool pairs "
